@@ -241,6 +241,64 @@ def cyl_case(ck: Check, rng):
             ck.fail(f"located at {f.position}, original {d.position} (dz/2 = {dz / 2})", {**sig, "check": "lattice_fibres_com"}, case)
 
 
+def cyl_boundary_case(ck: Check, rng):
+    """C01_cylinder_periodic_model on the implementation: an on-axis droplet ACROSS (or near) the periodic z boundary.  py-pde's
+    renderer is wrong there (known finding D12 of C03), so the sharp periodic image is rendered by the MODEL (exact rationals,
+    `c03 inside` with a periodic z axis) and handed to the real `locate_droplets_in_mask`."""
+    from pde import CylindricalSymGrid, ScalarField
+    from droplets.image_analysis import locate_droplets_in_mask
+
+    nr, nz = rng.randint(5, 10), rng.randint(10, 24)
+    dr, dz = rng.choice([1.0, 0.5, 0.8]), rng.choice([1.0, 0.5, 1.25])
+    zlo = rng.choice([0.0, -4.0])
+    L = nz * dz
+    h = max(dr, dz)
+    R = rng.uniform(1.2, 2.6) * h
+    if 2 * R + 2 * h > L or R + dr >= nr * dr:
+        return
+    # within R of the boundary (either side), sometimes exactly on it or on a cell centre next to it
+    z = zlo + rng.choice([rng.uniform(0, R), L - rng.uniform(0, R), 0.0, dz / 2, L - dz / 2, rng.uniform(0, L)])
+    z = min(max(z, zlo), zlo + L - 1e-9)
+    axes = f"0/1 {q(dr)} {nr} 0 {q(zlo)} {q(dz)} {nz} 1"
+    try:
+        out = run_driver([f"c03 inside 2 {axes} 0/1 {q(z)} {q(R)}"])[0]
+        mask = np.array([c == "1" for c in out.split()[1]]).reshape(nr, nz)
+        mout = run_driver([f"c02 cyl {nr} {nz} 1 " + " ".join(str(int(b)) for b in mask.flat)])[0]
+    except (RuntimeError, IndexError) as e:
+        ck.mismatch("c01-cyl-pipeline", f"driver unavailable: {e}", {})
+        return
+    if not mask.any():
+        return
+    # knife edge: a cell centre exactly on the sphere is excluded by the strict comparison in both; nothing to skip
+    grid = CylindricalSymGrid(nr * dr, [zlo, zlo + L], [nr, nz], periodic_z=True)
+    case = {"kind": "cylindrical-boundary", "grid": repr(grid), "droplet": [float(z), float(R)], "mask": mask.astype(int).tolist()}
+    sig = {"kind": "cylindrical-boundary", "periodic_z": True}
+    ck.case(("cylb", repr(grid), float(z), float(R)))
+    ck.count("cylindrical.across_periodic_boundary")
+    try:
+        found = locate_droplets_in_mask(ScalarField(grid, mask, dtype=bool))
+    except Exception as e:  # noqa: BLE001
+        ck.fail(f"locating raised {type(e).__name__}: {e}", {**sig, "check": "total"}, case)
+        return
+    if len(found) != 1:
+        ck.fail(f"{len(found)} droplets located for one on-axis droplet across the periodic boundary", {**sig, "check": "count"}, case)
+        return
+    f = found[0]
+    vol_cells = float(np.sum(grid.cell_volumes[mask]))
+    if not rel_close(f.volume, vol_cells, 1e-12):
+        ck.fail(f"volume {f.volume} != total volume of the covered cells {vol_cells}", {**sig, "check": "volume"}, case)
+    off = (f.position[2] - z + L / 2) % L - L / 2
+    if abs(off) >= dz / 2 + 1e-9 or f.position[0] != 0 or f.position[1] != 0:
+        ck.fail(f"located at {f.position}, original z = {z} (dz/2 = {dz / 2})", {**sig, "check": "lattice_fibres_com"}, case)
+    if not (zlo <= f.position[2] <= zlo + L):
+        ck.fail(f"position {f.position} outside the box on the periodic axis", {**sig, "check": "in_box"}, case)
+    # model candidates (before the overlap filter): all at the same place with the same weight
+    items = [(float(Fraction(it.split(":")[0])), int(it.split(":")[1])) for it in mout[2:].strip().split(";") if it] if mout.startswith("ok") and "spanning" not in mout else None
+    unit = math.pi * dr * dr * dz
+    if not items or any(abs(((zlo + dz * zq) - f.position[2] + L / 2) % L - L / 2) > 1e-9 * max(1.0, L) or not rel_close(f.volume, unit * w, 1e-12) for zq, w in items):
+        ck.mismatch("c01-cyl-pipeline", f"implementation locates (z {f.position[2]}, volume {f.volume}); model candidates {mout[:200]}", case)
+
+
 def lattice_offsets(ck: Check):
     """exhaustive lattice offsets c in {0..15}/16 h per axis for a few radii (1-D and 2-D)"""
     from pde import CartesianGrid
@@ -274,6 +332,7 @@ def run_cases(ck: Check, n_cart: int, n_rad: int, n_cyl: int):
         radial_case(ck, rng)
     for _ in range(n_cyl):
         cyl_case(ck, rng)
+        cyl_boundary_case(ck, rng)
     # model pipeline
     outs = run_driver(reqs)
     pos = 0
